@@ -16,7 +16,15 @@ def main():
         script = json.load(fh)
     try:
         mod = importlib.import_module(modname)
-        out = mod.in_runner(script)
+        pre = None
+        if isinstance(script, dict) and script.get("root_pkg") and not script.get("skip_preimport"):
+            # an emitted library that cannot be imported is an observation about the library, not a harness crash
+            try:
+                importlib.import_module(script["root_pkg"])
+            except BaseException as e:  # noqa
+                pre = {"library_import_error": {"type": type(e).__name__, "msg": str(e)[:600],
+                                                "tb": traceback.format_exc()[-2500:]}}
+        out = pre if pre is not None else mod.in_runner(script)
     except BaseException as e:  # noqa
         out = {"runner_crash": {"type": type(e).__name__, "msg": str(e)[:2000],
                                 "tb": traceback.format_exc()[-6000:]}}
